@@ -48,7 +48,7 @@ def run(ck):
     nseq = 300 if q else 6000
     cfg = os.path.join(vlib.SPEC, "C07_SeqRun.cfg")
     with open(cfg, "w") as f:
-        f.write("CONSTANTS D = 12 NSeq = %d\nSPECIFICATION Spec\nINVARIANT Emit\nCHECK_DEADLOCK FALSE\n" % nseq)
+        f.write("CONSTANTS D = 12 NSeq = %d Seed = %d\nSPECIFICATION Spec\nINVARIANT Emit\nCHECK_DEADLOCK FALSE\n" % (nseq, int(ck.seed) % 1000))
     sq = vlib.tlc("C07_Seq", "C07_SeqRun.cfg", wd, workers=2, timeout=1200, seed=ck.seed)
     os.remove(cfg)
     ck.add_tlc(sq, "A: %d random stateful behaviours of 12 invocations" % nseq)
@@ -82,7 +82,7 @@ def run(ck):
     ck.sample({"script_text": vlib.uncps([c for c in cases if c["label"] == "text"][0]["text"])})
     ck.notes["coverage"] = {"registry": nn["commands"], "commands_in_domain": sum(1 for c in cases if c.get("fresh")), "sweep_cases": sum(len(c["seq"]) for c in cases if c.get("fresh")),
                             "stateful_sequences": nseq, "script_texts": sum(1 for c in cases if c["label"] == "text"), "invocations": s["invocations"],
-                            "abnormal": s["abnormal"], "worker_starts": s["worker_starts"]}
+                            "abnormal": s["abnormal"], "worker_starts": s["worker_starts"], "abnormal_not_reproduced_on_a_second_run": s.get("not_reproduced", 0)}
     for f in (cf, ev):
         os.remove(f)
     ck.cmds.append("vh c07-names; tlc C07_A.cfg C07_MC.tla; tlc C07_Seq.tla; vh c07-run (worker subprocesses); tlc C07_Trace.tla")
